@@ -233,3 +233,28 @@ class Pipeline:
         if not (isinstance(out, tuple) and len(out) == 2 and isinstance(out[0], str)):
             raise Unsupported("convert() did not return (text, source map)")
         return out[0], out[1]
+
+    def decompile_ssbs(self, routine_infos: list[Any], routine_ops: list[Any], named_coroutines: list[Any]) -> tuple[str, Any]:
+        I = self.I
+        I.steps = 0
+        f = self.repo.find_class
+        coros = [I.new(f("SsbCoroutine"), i, n) for i, n in enumerate(named_coroutines) if isinstance(n, str)]
+        d = I.new(f("SsbScriptSsbDecompiler"), routine_infos, routine_ops, coros)
+        out = I.call_func(self.repo.find_method(d.cls, "convert"), [d], {})  # type: ignore[arg-type]
+        if not (isinstance(out, tuple) and len(out) == 2 and isinstance(out[0], str)):
+            raise Unsupported("convert() did not return (text, source map)")
+        return out[0], out[1]
+
+    # ------------------------------------------------------------------ building routine sets directly
+    def op(self, offset: int, name: str, params: list[Any]) -> AObj:
+        f = self.repo.find_class
+        return self.I.new(f("SsbOperation"), offset, self.I.new(f("SsbOpCode"), -1, name), list(params))
+
+    def info(self, kind: str, linked_to: int = 0, linked_name: Any = None) -> AObj:
+        from .absint import ClassVal
+        f = self.repo.find_class
+        rt = self.I.getattr_(ClassVal(f("SsbRoutineType")), kind)
+        return self.I.new(f("SsbRoutineInfo"), rt, linked_to, linked_name)
+
+    def param(self, cls: str, *a: Any) -> AObj:
+        return self.I.new(self.repo.find_class(cls), *a)
